@@ -406,8 +406,19 @@ func (m *Machine) eqTerm(t types.Type, x, y value) *Term {
 		return m.tt.Bool(xp == yp)
 	case []value:
 		// only comparison with nil is legal
+		if ys, ok := y.(*SliceSet); ok {
+			if xv != nil {
+				panic(unsupported{"slice comparison"})
+			}
+			return m.sliceSetIsNil(ys)
+		}
 		yv := y.([]value)
 		return m.tt.Bool(xv == nil && yv == nil)
+	case *SliceSet:
+		if yv, ok := y.([]value); ok && yv == nil {
+			return m.sliceSetIsNil(xv)
+		}
+		panic(unsupported{"slice comparison"})
 	case *ssa.Function:
 		if yf, ok := y.(*ssa.Function); ok {
 			return m.tt.Bool(xv == yf)
@@ -558,7 +569,7 @@ func (m *Machine) mergeVals(c *Term, a, b value) (value, bool) {
 	case []value:
 		bv, ok := b.([]value)
 		if !ok {
-			return nil, false
+			return m.mergeSlices(c, a, b)
 		}
 		if av == nil && bv == nil {
 			return av, true
@@ -569,7 +580,9 @@ func (m *Machine) mergeVals(c *Term, a, b value) (value, bool) {
 		if len(av) == 0 && len(bv) == 0 && (av == nil) == (bv == nil) && cap(av) == 0 && cap(bv) == 0 {
 			return av, true
 		}
-		return nil, false
+		return m.mergeSlices(c, a, b)
+	case *SliceSet:
+		return m.mergeSlices(c, a, b)
 	case *Map:
 		if bv, ok := b.(*Map); ok && av == bv {
 			return av, true
